@@ -292,6 +292,11 @@ def run_one(name, prefix):
     vs = []
     if s.deadlock:
         vs.append(viol("deadlock", name, {"log": [list(map(str, e)) for e in log[-6:]]}))
+    if s.horizon:
+        # every scenario is finite under a bounded number of preemptions: running into the step horizon means a stop()
+        # or wait() never returned while the work function kept being called
+        vs.append(viol("no-termination", name, {"log": [list(map(str, e)) for e in log[-6:]],
+                                                "work_calls": sum(1 for e in log if e[0] == "do")}))
     for t in s.threads:
         if t.exc is not None:
             vs.append(viol("thread-exception", "%s:%s" % (name, type(t.exc).__name__), {"thread": str(t.name), "exc": repr(t.exc)}))
